@@ -117,6 +117,7 @@ Lemma match_all_inv rs : forall s ep acc, inv s = true -> inv (snd (match_all s 
 Proof.
   induction rs as [|r q IH]; intros s ep acc H; cbn; auto.
   pose proof (match_request_inv s ep r H) as H1. destruct (match_request s ep r) as [x s1]. cbn in H1.
+  destruct (raises s ep r); [exact H1|].
   destruct (batch_append resp_id acc x); [apply IH; exact H1|exact H1].
 Qed.
 
@@ -127,7 +128,8 @@ Proof.
   - cbn [snd matches]. apply allv_set; auto. apply table_ok_set; [|apply nonnil_snoc].
     destruct (get ep (matches s)) as [t|] eqn:E; [right; eapply allv_get; eauto|left; reflexivity].
   - destruct (get ep (matches s)) as [t|] eqn:E; [|exact H]. destruct (get m t) as [l|] eqn:Em; [|exact H].
-    destruct (replace_nth idx p l) as [l'|] eqn:Er; [|exact H]. cbn [snd matches].
+    destruct (norm_index idx (List.length l)) as [k|]; [|exact H].
+    destruct (replace_nth k p l) as [l'|] eqn:Er; [|exact H]. cbn [snd matches].
     apply allv_set; auto. apply table_ok_set; [right; eapply allv_get; eauto|eapply replace_nth_nonnil; eauto].
   - destruct (get ep (matches s)) as [t|] eqn:E; [|exact H]. destruct (get m t) as [l|] eqn:Em; [|exact H]. cbn [snd matches].
     pose proof (allv_get table_ok ep _ t H E) as Htok. unfold table_ok in Htok. apply andb_true_iff in Htok. destruct Htok as [Hn Hall].
@@ -164,6 +166,7 @@ Definition answer (p : patch) (r : request) : response :=
   | PCallback tag => RResult (r_id r) (callback_value tag (r_params r))
   | PResult v => RResult (match r_id r with Some i => Some i | None => p_id p end) v
   | PError e => RError (match r_id r with Some i => Some i | None => p_id p end) e
+  | PRaise => RError (r_id r) raise_marker
   end.
 Definition patches (s : mstate) (ep m : string) : list patch :=
   match get ep (matches s) with Some t => match get m t with Some l => l | None => [] end | None => [] end.
@@ -268,6 +271,25 @@ Proof.
   destruct (get (r_method r) t) as [[|p rest]|]; cbn; auto. destruct (p_kind p); cbn; rewrite ?Hi; reflexivity.
 Qed.
 
+(* a patch whose serving raises *)
+Theorem call_raising pt s ep r t p rest : wfm s ->
+  get ep (matches s) = Some t -> get (r_method r) t = Some (p :: rest) -> p_kind p = PRaise ->
+  fst (step pt s (MCall ep r)) = MRaised
+  /\ patches (snd (step pt s (MCall ep r))) ep (r_method r) = (if p_once p then rest else rest ++ [p])
+  /\ calls (snd (step pt s (MCall ep r))) = record_call (calls s) ep (r_method r) (r_params r).
+Proof.
+  intros Hw Et Em Hk. destruct (call_patched s ep r t p rest Hw Et Em) as [_ [B [_ D]]].
+  cbn [step]. rewrite Et. assert (Hr : raises s ep r = true) by (unfold raises; rewrite Et, Em, Hk; reflexivity).
+  destruct (match_request s ep r) as [x s'] eqn:E. cbn [fst snd] in *. rewrite Hr. repeat split; assumption.
+Qed.
+Lemma norm_index_spec idx n k : norm_index idx n = Some k ->
+  ((0 <= idx)%Z /\ k = Z.to_nat idx) \/ ((idx < 0)%Z /\ (0 <= Z.of_nat n + idx)%Z /\ k = Z.to_nat (Z.of_nat n + idx)).
+Proof.
+  unfold norm_index. destruct (Z.leb_spec 0 idx) as [H|H].
+  - intros E. inversion E. left. split; auto.
+  - destruct (Z.leb_spec 0 (Z.of_nat n + idx)) as [H2|H2]; [|discriminate]. intros E. inversion E. right. repeat split; auto.
+Qed.
+
 (* ---------- round robin ---------- *)
 Fixpoint calls_for (s : mstate) (ep : string) (rs : list request) : list response * mstate :=
   match rs with [] => ([], s) | r :: q => let '(x, s1) := match_request s ep r in let '(xs, s2) := calls_for s1 ep q in (x :: xs, s2) end.
@@ -312,22 +334,26 @@ Qed.
 
 (* batches are answered element-wise, threading the state through the elements in order: when the replies carry pairwise
    distinct ids the answer is the array of exactly the replies the elements get one after the other *)
-Lemma match_all_calls_for rs : forall s ep acc,
+(* no element of the batch is served by a patch that raises *)
+Fixpoint no_raise (s : mstate) (ep : string) (rs : list request) : bool :=
+  match rs with [] => true | r :: q => negb (raises s ep r) && no_raise (snd (match_request s ep r)) ep q end.
+Lemma match_all_calls_for rs : forall s ep acc, no_raise s ep rs = true ->
   match batch_extend resp_id acc (fst (calls_for s ep rs)) with
   | Ok b => match_all s ep rs acc = (Some b, snd (calls_for s ep rs))
   | Raise _ => fst (match_all s ep rs acc) = None end.
 Proof.
-  induction rs as [|r q IH]; intros s ep acc; cbn [calls_for match_all].
+  induction rs as [|r q IH]; intros s ep acc Hnr; cbn [calls_for match_all].
   - cbn. unfold batch_extend, bind. cbn. rewrite !app_nil_r. destruct acc; reflexivity.
-  - destruct (match_request s ep r) as [x s1]. specialize (IH s1 ep).
+  - cbn [no_raise] in Hnr. apply andb_true_iff in Hnr. destruct Hnr as [Hr Hq]. apply negb_true_iff in Hr. rewrite Hr.
+    destruct (match_request s ep r) as [x s1]. cbn [snd] in Hq. specialize (IH s1 ep).
     destruct (calls_for s1 ep q) as [xs s2]. cbn [fst snd] in *.
-    rewrite batch_extend_cons'. unfold batch_append. destruct (batch_extend resp_id acc [x]) as [acc'|e]; cbn [bind]; [apply IH|reflexivity].
+    rewrite batch_extend_cons'. unfold batch_append. destruct (batch_extend resp_id acc [x]) as [acc'|e]; cbn [bind]; [apply IH; exact Hq|reflexivity].
 Qed.
-Theorem batch_elementwise pt s ep rs t b : get ep (matches s) = Some t ->
+Theorem batch_elementwise pt s ep rs t b : get ep (matches s) = Some t -> no_raise s ep rs = true ->
   batch_extend resp_id batch_empty (fst (calls_for s ep rs)) = Ok b ->
   step pt s (MBatch ep rs) = (MReply (JArr (map resp_to_json (fst (calls_for s ep rs)))), snd (calls_for s ep rs)).
 Proof.
-  intros E Hb. cbn [step]. rewrite E. pose proof (match_all_calls_for rs s ep batch_empty) as H. rewrite Hb in H. rewrite H.
+  intros E Hnr Hb. cbn [step]. rewrite E. pose proof (match_all_calls_for rs s ep batch_empty Hnr) as H. rewrite Hb in H. rewrite H.
   unfold batch_extend, bind in Hb. cbn in Hb. destruct (add_ids [] _); inversion Hb; subst. reflexivity.
 Qed.
 
@@ -335,6 +361,7 @@ Lemma match_all_wfm rs : forall s ep acc, wfm s -> wfm (snd (match_all s ep rs a
 Proof.
   induction rs as [|r q IH]; intros s ep acc H; cbn; auto.
   pose proof (match_request_wfm s ep r H) as H1. destruct (match_request s ep r) as [x s1]. cbn in H1.
+  destruct (raises s ep r); [exact H1|].
   destruct (batch_append resp_id acc x); [apply IH; exact H1|exact H1].
 Qed.
 Lemma wfm_set s ep t' : wfm s -> NoDup (keys t') -> wfm {| matches := set ep t' (matches s); calls := calls s |}.
@@ -352,7 +379,8 @@ Proof.
   intros H. pose proof H as [Hn Ht]. destruct o as [ep m p|ep m idx p|ep [m|]| |ep r|ep rs]; cbn [step].
   - cbn [snd]. apply wfm_set; auto. apply uniq_set. destruct (get ep (matches s)) eqn:E; [eapply Ht; eauto|constructor].
   - destruct (get ep (matches s)) as [t|] eqn:E; [|exact H]. destruct (get m t) as [l|]; [|exact H].
-    destruct (replace_nth idx p l); [|exact H]. cbn [snd]. apply wfm_set; auto. apply uniq_set. eapply Ht; eauto.
+    destruct (norm_index idx (List.length l)) as [k|]; [|exact H].
+    destruct (replace_nth k p l); [|exact H]. cbn [snd]. apply wfm_set; auto. apply uniq_set. eapply Ht; eauto.
   - destruct (get ep (matches s)) as [t|] eqn:E; [|exact H]. destruct (get m t) as [l|]; [|exact H]. cbn [snd].
     destruct (remove_key m t) as [|x t'] eqn:Er; [apply wfm_remove; auto|].
     apply wfm_set; auto. rewrite <- Er. apply uniq_remove. eapply Ht; eauto.
